@@ -260,8 +260,11 @@ func (l *Lexer) readOctalNumber() (string, token.Type) {
 }
 
 // readString reads a string literal
-func (l *Lexer) readString(delimiter byte) string {
+// readString reads a string literal; the second result is false when the
+// input ends before the closing delimiter.
+func (l *Lexer) readString(delimiter byte) (string, bool) {
 	var result strings.Builder
+	terminated := false
 
 	for {
 		l.ReadChar()
@@ -406,11 +409,12 @@ func (l *Lexer) readString(delimiter byte) string {
 			}
 		}
 		if l.CurrentChar == delimiter {
+			terminated = true
 			break
 		}
 		result.WriteByte(l.CurrentChar)
 	}
-	return result.String()
+	return result.String(), terminated
 }
 
 // writeDecodedEscape writes the character denoted by a \x or \u escape as
@@ -424,8 +428,11 @@ func writeDecodedEscape(result *strings.Builder, codePoint int) {
 	result.Write(encodeUTF8(codePoint))
 }
 
-func (l *Lexer) readRawString() string {
+// readRawString reads a backtick string; the second result is false when the
+// input ends before the closing backtick.
+func (l *Lexer) readRawString() (string, bool) {
 	var result strings.Builder
+	terminated := false
 	for {
 		l.ReadChar()
 		if l.atEnd() {
@@ -449,11 +456,12 @@ func (l *Lexer) readRawString() string {
 			}
 		}
 		if l.CurrentChar == '`' {
+			terminated = true
 			break
 		}
 		result.WriteByte(l.CurrentChar)
 	}
-	return result.String()
+	return result.String(), terminated
 }
 
 // NextToken generates and returns the next token from the input stream.
